@@ -515,21 +515,23 @@ def parseQOp (s : String) : Option QOp :=
   | ['c', d] => if d.isDigit then some (.close (d.toNat - 48)) else none
   | _ => none
 
-def qOutputs (s : QState) : List QOp → List String
+/-- `q`: the config that answers if the model determines it, `?` if Go's map iteration decided -/
+def qOutputs (s : QPoss) : List QOp → List String
   | [] => []
   | op :: rest =>
-    let s' := qStep s op
+    let s' := qpStep s op
     (match op with
-     | .dial => (match qDial s with
-                 | some g => toString g
-                 | none => "x")
-     | _ => toString s'.quicRefs ++ toString s'.udpRefs) :: qOutputs s' rest
+     | .dial => (match s.poss.eraseDups with
+                 | [] => "x"
+                 | [g] => toString g
+                 | _ => "?")
+     | _ => toString s'.opened.length ++ (if s'.opened.isEmpty then "0" else "1")) :: qOutputs s' rest
 
 def handleQuic (ops : String) : String :=
   let parts := ops.splitOn ";"
   if parts.length > 40 then "bad-op" else
   match parts.mapM parseQOp with
-  | some l => if qOk QState.init [] l then " ".intercalate (qOutputs QState.init l) else "bad-op"
+  | some l => if qpOk QPoss.init [] l then " ".intercalate (qOutputs QPoss.init l) else "bad-op"
   | none => "bad-op"
 
 def handle : List String → String
